@@ -1197,7 +1197,7 @@ def check_flag_init(ctx, tu, sy, f, counts):
 
     # state: 'uninit' | True | False | None (unknown)
     def transfer(blk, i, e, st):
-        if e[0] == 'I' and e[3] == FLAG[1]:
+        if e[0] == 'I' and tu.__dict__.get('_c12_names', {}).get(e[3], e[3]) == FLAG[1]:
             return [init_value(e)]
         ev = sy.event(e)
         if ev is not None and ev[0] == 'store' and ev[1] == FLAG:
@@ -2154,6 +2154,27 @@ def check_tu(ctx, tu, counts):
         lock_checked = set()
         for r in recs:
             names = {x['name']: x['ct'] for x in r.get('fields', [])}
+            if rec == VAL and not want <= set(names) and 'currentValue' in names:
+                # the shared state may live in a nested class held by value (flag + queued value + mutex): its members then
+                # stand for newValue / queuedValue / mutex, whatever they are called (roles by type)
+                for hn, hct in sorted(names.items()):
+                    hr = tu.records_by_type.get(hct)
+                    if hr is None or hn == 'currentValue' or not hr.get('fields'):
+                        continue
+                    hf = hr['fields']
+                    mx = [x_ for x_ in hf if x_['ct'] in TRUSTED_MUTEXES]
+                    fl = [x_ for x_ in hf if x_['ct'] in ('bool', 'std::atomic<bool>')]
+                    pv = [x_ for x_ in hf if x_['ct'] == names['currentValue']]
+                    if len(mx) == 1 and len(fl) == 1 and len(pv) == 1 and len(hf) == 3:
+                        sy.field_map[(hr['q'], mx[0]['name'])] = (VAL, 'mutex')
+                        sy.field_map[(hr['q'], fl[0]['name'])] = (VAL, 'newValue')
+                        sy.field_map[(hr['q'], pv[0]['name'])] = (VAL, 'queuedValue')
+                        tu.__dict__['_c12_holder'] = hn
+                        tu.__dict__['_c12_names'] = {fl[0]['name']: 'newValue', pv[0]['name']: 'queuedValue', mx[0]['name']: 'mutex'}
+                        names = dict(names, mutex=mx[0]['ct'], newValue=fl[0]['ct'], queuedValue=pv[0]['ct'])
+                        ctx.note('%s: shared state lives in the nested class %s (%s = newValue, %s = queuedValue, %s = mutex)'
+                                 % (T['short'], hr['q'].split('::')[-1], fl[0]['name'], pv[0]['name'], mx[0]['name']))
+                        break
             dbvs = [x_ for x_, ct_ in names.items() if ct_.startswith(DBV + '<')]
             if rec == VAL and not want <= set(names) and want - set(names) <= {'queuedValue', 'currentValue'} and len(dbvs) == 1:
                 # the two value slots live in a DoubleBufferedValue member: back() is the queued slot (guarded by the mutex),
@@ -2181,7 +2202,7 @@ def check_tu(ctx, tu, counts):
             if rec == VAL:
                 check_indicator_type(ctx, tu, rec, T, r, names, counts)
             for extra in sorted(set(names) - want):
-                if rec == VAL and extra == dbv_member(tu):
+                if rec == VAL and (extra == dbv_member(tu) or extra == tu.__dict__.get('_c12_holder')):
                     continue
                 if is_atomic_type(names[extra]) and atomic_mirror(tu, sy, rec, T, extra):
                     # contradiction rule: the code itself writes this atomic under the mutex somewhere, i.e. it mirrors guarded
